@@ -38,6 +38,7 @@ func (u *writeUnit) start(r wuReq) error {
 	}
 	if execution.Execution.RegisterChange {
 		u.ctx.TransactionRATWrite(execution.Execution, execution.SequenceID)
+		u.ctx.VerifEvent(risc.VerifKindRegWB, execution.SequenceID, int32(execution.Execution.Register), execution.Execution.RegisterValue)
 		u.ctx.DeletePendingRegisters(execution.ReadRegisters, execution.WriteRegisters)
 		log.Infoi(u.ctx, "WU", execution.InstructionType, execution.SequenceID, "write to register")
 	} else if execution.Execution.MemoryChange {
@@ -52,6 +53,7 @@ func (u *writeUnit) start(r wuReq) error {
 			}
 			u.Reset()
 			u.ctx.WriteMemory(u.memoryWrite.Execution)
+			u.ctx.VerifStore(u.memoryWrite.SequenceID, u.memoryWrite.Execution)
 			u.ctx.DeletePendingRegisters(u.memoryWrite.ReadRegisters, u.memoryWrite.WriteRegisters)
 			log.Infoi(u.ctx, "WU", u.memoryWrite.InstructionType, execution.SequenceID, "write to memory")
 			return nil
